@@ -305,6 +305,11 @@ def query_avoid_reasons(q, partitions=2):
             return n_from_items(f.left) + n_from_items(f.right)
         return 1
 
+    def has_semi_join(f):
+        if f is None or f.k != "join":
+            return False
+        return f.kind in ("semi", "anti") or has_semi_join(f.left) or has_semi_join(f.right)
+
     def has_bool_subq(e):
         hit = []
 
@@ -324,7 +329,29 @@ def query_avoid_reasons(q, partitions=2):
         _walk_exprs(e, fn)
         return bool(hit)
 
+    def dependent_grouping_keys(s):
+        """ROLLUP/CUBE whose key list holds an expression over columns that are (part of) another key of the list"""
+        if s.group is None or s.group[0] == "plain":
+            return False
+        keys = s.group[1]
+        cols = []
+        for g in keys:
+            c = set()
+
+            def fn(x, c=c):
+                if x.k == "col":
+                    c.add((x.a[0], x.a[1]))
+            _walk_exprs(g, fn)
+            cols.append(c)
+        for i, g in enumerate(keys):
+            for j, h in enumerate(keys):
+                if i != j and g.k != "col" and cols[i] & cols[j] and struct_key(g) != struct_key(h):
+                    return True
+        return False
+
     def visit_sel(s):
+        if dependent_grouping_keys(s):
+            reasons.add("rollup-dependent-key-not-nulled")
         if s.group is not None:
             gkeys = [struct_key(g) for g in s.group[1]]
             for e, _ in s.items:
@@ -335,6 +362,9 @@ def query_avoid_reasons(q, partitions=2):
                             reasons.add("grouping-function-argument-order")
                 _walk_exprs(e, fn)
         if s.where is not None and n_from_items(s.frm) >= 3 and has_bool_subq(s.where):
+            reasons.add("optimizer-semi-join-reorder-loses-rows")
+        if n_from_items(s.frm) >= 3 and has_semi_join(s.frm):
+            # the same reordering defect through the explicit SEMI / ANTI JOIN syntax
             reasons.add("optimizer-semi-join-reorder-loses-rows")
         if s.where is not None and const_operand_bool_subq(s.where):
             reasons.add("optimizer-semi-join-constant-operand-loses-rows")
